@@ -144,7 +144,19 @@ def ffck_pack(c):
     c.returns(ffcdh_key_rope(c, n, p, g, y))
 
 
-@REG.contract("dpapi_ng._gkdi.FFCDHKey.unpack", props=["C11", "C03"])
+def ffck_any_post(f):
+    """what FFCDHKey.unpack returns for ANY bytes: every integer was read from at most key_length bytes"""
+    from pyvc.builtins import POW256
+
+    p = POW256(Z(f["key_length"]))
+    return z3.And(Z(f["key_length"]) >= 0, Z(f["key_length"]) < 2**32, p >= 1, *[z3.And(Z(f[k]) >= 0, Z(f[k]) < p) for k in ("field_order", "generator", "public_key")])
+
+
+def eck_any_post(f):
+    return z3.And(Z(f["key_length"]) >= 0, Z(f["key_length"]) < 2**32, Z(f["x"]) >= 0, Z(f["y"]) >= 0)
+
+
+@REG.contract("dpapi_ng._gkdi.FFCDHKey.unpack", props=["C11", "C03", "C05"])
 def ffck_unpack(c):
     class_param(c, "FFCDHKey")
     if c.verifying:
@@ -158,7 +170,7 @@ def ffck_unpack(c):
         t = R.to_term(c.ctx, c.I.rope_of(data))
         c.raises("ValueError", when=None)
         f = uf_fields(c.I, "FFCK", t, {"key_length": "int", "field_order": "int", "generator": "int", "public_key": "int"})
-        c.assume(z3.And(f["key_length"] >= 0, f["key_length"] < 2**32, f["field_order"] >= 0, f["generator"] >= 0, f["public_key"] >= 0))
+        c.assume(ffck_any_post(f))  # verified on arbitrary bytes: FFCDHKey.unpack#arbitrary-bytes (C05)
         c.returns(SObj(c.I.P.find_class("FFCDHKey"), {**f, "magic": SBytes(R.Rope.lit(b"DHPB"))}))
 
 
@@ -202,7 +214,7 @@ def eck_pack(c):
     c.returns(ecdh_key_rope(c, curve, n, x, y))
 
 
-@REG.contract("dpapi_ng._gkdi.ECDHKey.unpack", props=["C11", "C03"])
+@REG.contract("dpapi_ng._gkdi.ECDHKey.unpack", props=["C11", "C03", "C05"])
 def eck_unpack(c):
     class_param(c, "ECDHKey")
     if c.verifying:
@@ -217,7 +229,7 @@ def eck_unpack(c):
         t = R.to_term(c.ctx, c.I.rope_of(data))
         c.raises("ValueError", when=None)
         f = uf_fields(c.I, "ECK", t, {"key_length": "int", "x": "int", "y": "int", "curve_name": "str"})
-        c.assume(z3.And(f["key_length"] >= 0, f["key_length"] < 2**32, f["x"] >= 0, f["y"] >= 0))
+        c.assume(eck_any_post(f))  # verified on arbitrary bytes: ECDHKey.unpack#arbitrary-bytes (C05)
         c.assume(z3.Or(*[f["curve_name"].term == str_lit(k) for k in CURVES]))
         c.returns(SObj(c.I.P.find_class("ECDHKey"), {**f, "magic": SBytes(R.Rope.lit(b"ECK"))}))
 
@@ -417,9 +429,14 @@ def kid_of_opaque(c, data):
     return SObj(c.I.P.find_class("KeyIdentifier"), {**f, "magic": SBytes(R.Rope.lit(b"KDSK"))})
 
 
-@REG.contract("dpapi_ng._blob.KeyIdentifier.unpack", props=["C11", "C06"], inline=True)
+@REG.contract("dpapi_ng._blob.KeyIdentifier.unpack", props=["C11", "C06"])
 def kid_unpack(c):
     class_param(c, "KeyIdentifier")
+    if not c.verifying:
+        from .c_asn1 import opaque
+
+        if not opaque(c.I.rope_of(c.param("data"))):
+            c.inline_instead()  # structured bytes (C06): the body is executed on them
     if c.verifying:
         f = kid_fresh(c)
         c.assume(kid_wf(c, f))
